@@ -1,14 +1,14 @@
 SPECIFICATION Spec
 CONSTANTS
   H = {"c1", "c2"}
-  Limit = 0
+  Limit = 1
   PortMayBeBusy = TRUE
   WithStop = TRUE
   WithDrain = TRUE
   FixDone = TRUE
   FixPublish = TRUE
   FixStats = TRUE
-  AtomicAdd = TRUE
+  AtomicAdd = FALSE
   TakeRegistry = TRUE
   Det = FALSE
 INVARIANTS TypeOK NoStuckStop AfterStopAllReleased LimitRespected ConnStatsConserved GaugeNonNegative
